@@ -3,6 +3,8 @@
 seeds=$1; tier=${2:-quick}; shift; shift
 HERE=$(cd "$(dirname "$0")/.." && pwd)
 cd "$HERE"
+# under `vp run --with-repo` use the snapshot of /repo HEAD, so seeded changes applied to /repo meanwhile do not leak in
+[ -n "${VP_RUN_REPO:-}" ] && export VERIF_REPO="$VP_RUN_REPO"
 props="$*"
 [ -z "$props" ] && props=$(python3 -c "import json;print(' '.join(c['property_id'] for c in json.load(open('MANIFEST.json'))['checks']))")
 for s in $seeds; do
